@@ -160,6 +160,18 @@ func gen(r *Rng, tier string, emit Emit) {
 		c := editops.FlashCase(rr, editops.GenCase(rr, rr.Pick(0, 0, 1), rr.Range(1, 3)))
 		emitCase(emit, c, false)
 	}
+	// inserts whose target lives in a nested volume carried by a driver / application / core file
+	// (a volume-image section in a file that is not of the FV-image file type)
+	ncar := 60
+	if tier == "thorough" {
+		ncar = 1500
+	}
+	for it := 0; it < ncar; it++ {
+		rr := r.Fork(uint64(9100000 + it))
+		if c, ok := editops.GenCaseCarrier(rr); ok {
+			emitCase(emit, c, true)
+		}
+	}
 }
 
 func emitTables(emit Emit, c editops.ECase) {
